@@ -27,6 +27,7 @@ ASSUMPTIONS = [
     "exit status without -W: 2 iff a markup error or an unrenderable value was planted",
 ]
 FORMATS = ['epytext', 'restructuredtext', 'google', 'numpy']
+ODD_BOUNDARY_FORMATS = ('epytext', 'restructuredtext', 'google', 'numpy')
 _MSG = re.compile(r'^(?P<path>.*?):(?P<line>\d+|\?\?\?): (?P<msg>.*)$')
 
 
@@ -76,6 +77,10 @@ def gen_docstring(draw: Any, b: Builder, indent: int, kind: str, params: List[st
             for _ in range(draw(st.integers(1, 2))):
                 items.append([' '.join(b.tok('w') for _ in range(2)) for _ in range(draw(st.integers(1, 2)))])
             blocks.append({'t': 'items', 'items': items})
+    # characters that str.splitlines() takes for line boundaries but that do not end a line of the source file
+    odd = draw(st.sampled_from([''] * 5 + ['\u2028', '\u2029', '\x85'])) if fmt in ODD_BOUNDARY_FORMATS else ''
+    if odd:
+        blocks[0]['lines'][0] += odd + b.tok('w')
     if fmt == 'epytext' and any(x['t'] == 'items' for x in blocks):
         # inspect.cleandoc removes the indentation common to all lines but the first: with text on the opening
         # line the list would lose the indentation epytext requires relative to the paragraphs
@@ -320,6 +325,19 @@ def run_module(src: str, fmt: str, W: bool, subfile: Optional[str] = None) -> Tu
         return r.code, msgs, ''
 
 
+ODD_BOUNDARIES = '\u2028\u2029\x85\x0b\x0c\x1c\x1d\x1e'
+SHIFTED = 'line-shifted-after-docutils-line-boundary-character'
+
+
+def _shifted(src: str, fmt: str, allowed: Tuple[int, int], l: Any) -> bool:
+    """docutils splits its input at every character str.splitlines() takes for a line boundary: in the formats it parses, a line
+    reported after such a character is too large by the number of those characters before it (finding F55)"""
+    if fmt == 'epytext' or not isinstance(l, int) or l <= allowed[1]:
+        return False
+    n = sum(ln.count(c) for ln in src.split('\n')[:l] for c in ODD_BOUNDARIES)
+    return 0 < l - allowed[1] <= n
+
+
 def check_module(case: Dict[str, Any]) -> Tuple[List[Tuple[str, str]], Dict[str, Any]]:
     fmt, src, problems = case['fmt'], case['src'], case['problems']
     out: List[Tuple[str, str]] = []
@@ -339,7 +357,9 @@ def check_module(case: Dict[str, Any]) -> Tuple[List[Tuple[str, str]], Dict[str,
     for p in problems:
         if p['kind'] == 'markup':
             hits = [(l, m) for _pth, l, m in msgs if 'bad docstring' in m and isinstance(l, int) and p['allowed'][0] <= l <= p['allowed'][1]]
-            if not hits:
+            if not hits and any('bad docstring' in m and _shifted(src, fmt, p['allowed'], l) for _pth, l, m in msgs):
+                out.append((SHIFTED, '%s\nmarkup error planted in block lines %s is reported further down; messages:\n%s' % (desc, p['block'], shown)))
+            elif not hits:
                 out.append(('markup-error-line', '%s\nmarkup error planted in block lines %s (allowed %s) is not reported there; messages:\n%s' % (desc, p['block'], p['allowed'], shown)))
             continue
         rel = [(l, m) for _pth, l, m in msgs if p['token'] in m]
@@ -347,13 +367,15 @@ def check_module(case: Dict[str, Any]) -> Tuple[List[Tuple[str, str]], Dict[str,
         if len(same) > 1:
             # several planted problems share the token: each needs a report of its own, each report belongs to one of them
             mine = [(l, m) for l, m in rel if isinstance(l, int) and p['allowed'][0] <= l <= p['allowed'][1]]
-            if not mine:
+            if not mine and any(_shifted(src, fmt, p['allowed'], l) for l, m in rel):
+                out.append((SHIFTED, '%s\nplanted %s %s (block lines %s) is reported further down; messages:\n%s' % (desc, p['kind'], p['token'], p['block'], shown)))
+            elif not mine:
                 out.append(('problem-not-reported', '%s\nplanted %s %s (block lines %s; the tag occurs %d times in the docstring) is not reported; messages:\n%s' % (
                     desc, p['kind'], p['token'], p['block'], len(same), shown)))
             info['reports'] += len(mine)
             for l, m in rel:
                 if not any(isinstance(l, int) and q['allowed'][0] <= l <= q['allowed'][1] for q in same):
-                    out.append(('wrong-line:' + p['kind'], '%s\nplanted %s %s, reported at line %s which is in none of the blocks %s: %s' % (
+                    out.append((SHIFTED if any(_shifted(src, fmt, q['allowed'], l) for q in same) else 'wrong-line:' + p['kind'], '%s\nplanted %s %s, reported at line %s which is in none of the blocks %s: %s' % (
                         desc, p['kind'], p['token'], l, [q['allowed'] for q in same], m)))
             continue
         if not rel:
@@ -364,10 +386,12 @@ def check_module(case: Dict[str, Any]) -> Tuple[List[Tuple[str, str]], Dict[str,
             if isinstance(l, int) and l == p['block'][0]:
                 info['first_line_hits'] += 1
             if not isinstance(l, int) or not (p['allowed'][0] <= l <= p['allowed'][1]):
-                out.append(('wrong-line:' + p['kind'], '%s\nplanted %s %s in %s docstring, block lines %s, allowed lines %s, reported at line %s: %s' % (
+                out.append((SHIFTED if _shifted(src, fmt, p['allowed'], l) else 'wrong-line:' + p['kind'], '%s\nplanted %s %s in %s docstring, block lines %s, allowed lines %s, reported at line %s: %s' % (
                     desc, p['kind'], p['token'], p['object_kind'], p['block'], p['allowed'], l, m)))
     stray = [(l, m) for _pth, l, m in msgs if 'bad docstring' in m and not any(isinstance(l, int) and a[0] <= l <= a[1] for a in markup_lines_allowed)]
-    if stray:
+    if stray and all(any(_shifted(src, fmt, a, l) for a in markup_lines_allowed) for l, m in stray):
+        out.append((SHIFTED, '%s\nmarkup errors reported below the block they were planted in: %s' % (desc, stray[:3])))
+    elif stray:
         out.append(('unplanted-markup-error', '%s\nmarkup errors reported where none was planted: %s' % (desc, stray[:3])))
     # counting and exit status
     nplanted = len(problems) + (1 if case.get('broken_value') else 0)
